@@ -107,9 +107,9 @@ static void probe_cb(const char *what, DBusConnection *conn, DBusMessage *msg) {
     return;
   }
   if (strcmp(what, "dispatch") != 0) return;
-  if (dbus_message_is_signal(msg, "org.freedesktop.DBus.Local", "Disconnected")) g_world->live_conns.erase(conn);
   int c = g_world->client_of_connection(conn);
   if (g_world->on_dispatch) g_world->on_dispatch(c, conn, msg);
+  if (dbus_message_is_signal(msg, "org.freedesktop.DBus.Local", "Disconnected")) g_world->live_conns.erase(conn);
 }
 
 World::World(core::Trace &t, uint64_t s) : tr(t), seed(s) {
